@@ -2349,10 +2349,12 @@ class Recipe:
                 step.substances_used = set.difference(step.to[0].get_substances(), step.to[1].get_substances())
                 if isinstance(dest, Container):
                     step.trash = {substance: step.to[0].contents[substance] for substance in step.substances_used}
-                else:  # Plate
-                    for well in step.to[0].wells.flatten():
-                        for substance in step.substances_used:
-                            step.trash[substance] = step.trash.get(substance, 0.) + well.contents.get(substance, 0.)
+                else:  # Plate: what vanished from each well
+                    step.substances_used = set()
+                    for before, after in zip(step.to[0].wells.flatten(), step.to[1].wells.flatten()):
+                        for substance in set.difference(before.get_substances(), after.get_substances()):
+                            step.substances_used.add(substance)
+                            step.trash[substance] = step.trash.get(substance, 0.) + before.contents[substance]
             elif operator == 'dilute':
                 dest = step.to[0]
                 dest_name = dest.name
